@@ -556,12 +556,12 @@ impl BudgetEnforcer {
 
         if self.budget.enforce_alias_anchor_ratio
             && self.report.aliases >= self.budget.alias_anchor_min_aliases
-            && (self.report.anchors == 0
-                || self.report.aliases
-                    > self
-                        .budget
-                        .alias_anchor_ratio_multiplier
-                        .saturating_mul(self.report.anchors))
+            // (no anchors: any alias at all is over the ratio, no alias is not)
+            && self.report.aliases
+                > self
+                    .budget
+                    .alias_anchor_ratio_multiplier
+                    .saturating_mul(self.report.anchors)
         {
             self.report.breached = Some(BudgetBreach::AliasAnchorRatio {
                 aliases: self.report.aliases,
